@@ -382,11 +382,15 @@ def llvm_accepts(text: str):
 
 
 class Jit:
-    def __init__(self, mod, name: str, ptypes: list[str], rty: str):
+    def __init__(self, mod, name: str, ptypes: list[str], rty: str, host: bool = False):
         import llvmlite.binding as llvm
 
         _init()
-        tm = llvm.Target.from_default_triple().create_target_machine(opt=0)
+        if host:   # the machine's own instruction set (half/bfloat conversions need it, see c23_fmt.can_execute)
+            tm = llvm.Target.from_default_triple().create_target_machine(
+                cpu=llvm.get_host_cpu_name(), features=llvm.get_host_cpu_features().flatten(), opt=0)
+        else:
+            tm = llvm.Target.from_default_triple().create_target_machine(opt=0)
         self.engine = llvm.create_mcjit_compiler(mod, tm)
         self.engine.finalize_object()
         addr = self.engine.get_function_address(name)
